@@ -213,4 +213,18 @@ CHECKS = {
              "shards": {"quick": 1, "thorough": 8}, "timeout": {"quick": 900, "thorough": 7200}},
         ],
     },
+    "C03": {
+        "rule": ("the proxy handler on real transports: downstream loopback TCP, Unix socket or TLS-terminated; 1-3 harness peers of one upstream over TCP or Unix sockets; client and "
+                 "peer payloads 0 .. 200 KB (thorough: 1 MiB) drawn log-style, chunk sizes 7 B .. whole, pauses; peers answer after the client's EOF (request/response over "
+                 "half-close), at once and then half-close while they keep reading, or duplex; the client sends first or only after it has seen the upstreams' EOF; a matcher "
+                 "prefetches 0-6000 bytes first; faults: client or one peer resets (SO_LINGER 0) at a generated offset. Peers use disjoint byte alphabets so that the "
+                 "interleaving at the client can be split. Oracle: exact streams and EOF in both directions, handler returns, upstream connections closed, fd count restored; "
+                 "fault cases: prefixes only, handler returns. Non-trivial = both directions non-empty with data sent after the other side's EOF, or >= 2 peers, or prefetched bytes."),
+        "assumptions": ["interleavings of the relay goroutines are sampled", "downstreams without half-close (behind proxy_protocol/throttle, UDP) are outside the 'wherever the transport offers' clause"],
+        "min_classes": {"quick": {"C03/tls": 40, "C03/unix": 40, "C03/fault": 20, "C03/half-close-with-data-after-eof": 60, "C03/peers/3": 20, "C03/prefetched": 40}},
+        "runs": [
+            {"name": "relay", "pkg": "./c03", "run": ".", "rapid_checks": {"quick": 100, "thorough": 5000},
+             "shards": {"quick": 4, "thorough": 16}, "timeout": {"quick": 600, "thorough": 7200}},
+        ],
+    },
 }
